@@ -1675,7 +1675,7 @@ static void DecodeZERO(Word Index) {
 
     if (ChkArgCnt(1, 1)) {
         DecodeAdr(&ArgStr[1], MModReg + MModLReg, True, &DReg);
-        if ((ThisCross) || (IsCross(DReg))) {
+        if (ThisCross) {
             WrError(ErrNum_InvAddrMode);
         } else {
             switch (AdrMode) {
